@@ -2111,3 +2111,119 @@ Proof.
            repeat split; try reflexivity.
            exists insns, pad. auto.
 Qed.
+
+(* ---- from the written table to the hypotheses of tiles_read ---- *)
+
+Lemma well_tiled_fde_member dbg be eh cies fdes : forall chunks pos placed k b,
+  well_tiled dbg be eh cies fdes pos placed chunks ->
+  (forall i o, CfiWrProofs.lookup i placed = Some o -> o <= pos) ->
+  In (CfaEncSpec.IFde k, b) chunks ->
+  exists p coff idx f c,
+    pos <= p /\ p + len b <= pos + len (concat (map snd chunks)) /\ coff <= p /\
+    nth_error fdes k = Some (idx, f) /\ nth_error cies idx = Some c /\
+    fde_write dbg be eh p coff c f = Ok b.
+Proof.
+  induction chunks as [|[it cb] r IH]; intros pos placed k b Hwt Hpl Hin; [destruct Hin|].
+  rewrite concat_cons_snd, len_app. cbn [snd].
+  destruct it as [idx|k']; cbn [well_tiled] in Hwt; destruct Hwt as [Hthis Hrest].
+  - destruct Hin as [Heq|Hin]; [discriminate|].
+    destruct (IH (pos + len cb) ((idx, pos) :: placed) k b Hrest) as (p & coff & i & f & c & H1 & H2 & H3 & H4);
+      [|exact Hin|].
+    + intros i o Hl. cbn [CfiWrProofs.lookup] in Hl. destruct (Nat.eqb i idx); [injection Hl as <-; lia|].
+      specialize (Hpl i o Hl). lia.
+    + exists p, coff, i, f, c. split; [lia|]. split; [lia|]. exact (conj H3 H4).
+  - destruct Hin as [Heq|Hin].
+    + injection Heq as <- <-. destruct Hthis as (idx & f & c & coff & Hk & Hn & Hlk & Hw).
+      exists pos, coff, idx, f, c. split; [lia|]. split; [lia|]. split; [exact (Hpl idx coff Hlk)|]. auto.
+    + destruct (IH (pos + len cb) placed k b Hrest) as (p & coff & i & f & c & H1 & H2 & H3 & H4); [|exact Hin|].
+      * intros i o Hl. specialize (Hpl i o Hl). lia.
+      * exists p, coff, i, f, c. split; [lia|]. split; [lia|]. exact (conj H3 H4).
+Qed.
+
+Lemma well_tiled_nonempty dbg be eh cies fdes : forall chunks pos placed,
+  well_tiled dbg be eh cies fdes pos placed chunks ->
+  (length chunks <= length (concat (map snd chunks)))%nat.
+Proof.
+  induction chunks as [|[it cb] r IH]; intros pos placed Hwt; [cbn; lia|].
+  rewrite concat_cons_snd, app_length. cbn [snd length].
+  assert (Hcb : (1 <= length cb)%nat).
+  { destruct it as [idx|k]; cbn [well_tiled] in Hwt; destruct Hwt as [Hthis _].
+    - destruct Hthis as (c & _ & Hw). pose proof (cie_write_ok_asz _ _ _ _ _ _ Hw) as Ha.
+      destruct (asz_cases_pow2 _ Ha) as [Hu Hp].
+      destruct (cie_write_layout dbg be eh pos c cb Hu Hp Hw) as (il & hdr & insns & pad & -> & _ & Hl & _).
+      rewrite app_length. unfold len in Hl. destruct (c_fmt64 c); cbn [ilen_size] in Hl; lia.
+    - destruct Hthis as (idx & f & c & coff & _ & _ & _ & Hw). pose proof (fde_write_ok_asz _ _ _ _ _ _ _ _ Hw) as Ha.
+      destruct (asz_cases_pow2 _ Ha) as [Hu Hp].
+      destruct (fde_write_layout dbg be eh pos coff c f cb Hu Hp Hw) as (il & hdr & insns & pad & -> & _ & Hl & _).
+      rewrite app_length. unfold len in Hl. destruct (c_fmt64 c); cbn [ilen_size] in Hl; lia. }
+  destruct it; cbn [well_tiled] in Hwt; destruct Hwt as [_ Hrest]; specialize (IH _ _ Hrest); lia.
+Qed.
+
+Lemma in_fde_items l k : In k (fde_items l) -> In (CfaEncSpec.IFde k) l.
+Proof.
+  induction l as [|x r IH]; [intros []|]. destruct x; cbn [fde_items]; intros H.
+  - right. apply IH. exact H.
+  - destruct H as [->|H]; [left; reflexivity|right; apply IH; exact H].
+Qed.
+Lemma in_cie_items l i : In (CfaEncSpec.ICie i) l -> In i (cie_items l).
+Proof.
+  induction l as [|x r IH]; [intros []|]. intros [->|H]; [left; reflexivity|].
+  destruct x; cbn [cie_items]; [right|]; apply IH; exact H.
+Qed.
+
+Lemma entries_read_by_reader_lem dbg dbg' be eh asz (t : ftable) bs :
+  Forall (fun c => cie_wf c = true /\ c_asize c = asz) (t_cies t) ->
+  Forall (fun p => fde_wf (snd p) = true) (t_fdes t) ->
+  len bs + 16 < 4294967295 ->
+  write_table dbg be eh 0 t = Ok bs ->
+  exists chunks items,
+    map fst chunks = plan [] 0 (map fst (t_fdes t)) /\
+    bs = concat (map snd chunks) /\
+    CfiRd.entries_all dbg' (rd_cfg eh be asz) bs = Ok (items, None) /\
+    reader_sees dbg dbg' be eh asz (t_cies t) (t_fdes t) bs 0 [] chunks items.
+Proof.
+  intros HC HF Hsmall H.
+  destruct (write_table_tiled dbg be eh 0 t bs H) as (chunks & Hplan & Hbs & Hwt).
+  exists chunks.
+  (* every referenced CIE has encodings the reader accepts *)
+  assert (HU : forall idx c, In idx (map fst (t_fdes t)) -> nth_error (t_cies t) idx = Some c ->
+             (forall e, c_lsda_enc c = Some e -> enc_usable e) /\
+             (negb (c_fde_enc c =? 0) = true -> enc_usable (c_fde_enc c))).
+  { intros idx c Hin Hn.
+    apply in_map_iff in Hin. destruct Hin as ([idx' f] & Hfst & Hinf). cbn [fst] in Hfst. subst idx'.
+    apply In_nth_error in Hinf. destruct Hinf as (k & Hk).
+    assert (Hk' : In k (fde_items (plan [] 0 (map fst (t_fdes t))))).
+    { rewrite plan_fdes. apply in_seq. rewrite map_length.
+      assert (k < length (t_fdes t))%nat by (apply nth_error_Some; congruence). lia. }
+    apply in_fde_items in Hk'. rewrite <- Hplan in Hk'. apply in_map_iff in Hk'.
+    destruct Hk' as ([it b] & Hit & Hinb). cbn [fst] in Hit. subst it.
+    destruct (well_tiled_fde_member dbg be eh _ _ chunks 0 [] k b Hwt ltac:(intros i o Hl; discriminate) Hinb)
+      as (p & coff & idx2 & f2 & c2 & Hp1 & Hp2 & Hp3 & Hk2 & Hn2 & Hw).
+    rewrite Hk in Hk2. injection Hk2 as <- <-. rewrite Hn in Hn2. injection Hn2 as <-.
+    assert (Hcw : cie_wf c = true /\ c_asize c = asz).
+    { rewrite Forall_forall in HC. apply HC. eapply nth_error_In. exact Hn. }
+    destruct Hcw as [Hcw _].
+    assert (Hfw : fde_wf f = true).
+    { rewrite Forall_forall in HF. apply (HF (idx, f)). eapply nth_error_In. exact Hk. }
+    rewrite <- Hbs in Hp2.
+    destruct (fde_write_enc dbg be eh p coff c f b Hcw Hfw ltac:(lia) Hp3 Hw)
+      as (_ & _ & _ & _ & _ & _ & _ & Hfenc & _ & Hlenc & _).
+    pose proof Hcw as Hcw0. unfold cie_wf in Hcw. split_wf Hcw.
+    rename W into Hinsns, W0 into Hfe, W1 into Hle.
+    split.
+    - intros e He. destruct (Hlenc e He) as (Happ & Hfv & _). rewrite He in Hle. apply is_u8_iff in Hle.
+      split; [exact Hle|]. split; assumption.
+    - intros Ef. destruct (Hfenc Ef) as (Happ & Hfv & _). apply is_u8_iff in Hfe. split; [exact Hfe|]. split; assumption. }
+  assert (Hin : forall idx cb, In (CfaEncSpec.ICie idx, cb) chunks -> In idx (map fst (t_fdes t))).
+  { intros idx cb Hi. destruct (plan_cies (map fst (t_fdes t)) [] 0) as [_ Hc].
+    apply (Hc idx). rewrite <- Hplan. apply in_cie_items. apply in_map_iff. exists (CfaEncSpec.ICie idx, cb). auto. }
+  destruct (tiles_read dbg dbg' be eh asz (t_cies t) (t_fdes t) bs HC HF HU Hsmall chunks [] [] (S (length bs)))
+    as (items & Hloop & Hsees).
+  - exact Hbs.
+  - exact Hwt.
+  - exact Hin.
+  - intros idx o Hl. discriminate.
+  - pose proof (well_tiled_nonempty _ _ _ _ _ _ _ _ Hwt). rewrite <- Hbs in *. lia.
+  - exists items. split; [exact Hplan|]. split; [exact Hbs|]. split; [|exact Hsees].
+    unfold CfiRd.entries_all. rewrite <- Hbs in Hloop. exact Hloop.
+Qed.
